@@ -1699,3 +1699,29 @@ def r12_9(rep):
     for key in PARSE_RESULT_PANICS:
         if key not in seen:
             rep.ok("inventory-entry-gone:%s:%s" % (key[0], key[1]), "site no longer unwraps (stricter than the inventory)")
+
+
+@RULES.rule("R12.10", "version/option parsers cannot underflow or over-shift on any input (interval analysis)", floor=1)
+def r12_10(rep):
+    """`--rust-target 1.0.0-nightly` reached `minor -= 1` with minor == 0 (panic in debug builds); repaired by a fix: commit.
+    The interval interpreter evaluates every unsigned subtraction and shift of the parsers under the conditions that
+    dominate them; parsed numbers are unconstrained u64."""
+    import intervals
+    prog = rep.prog
+    targets = [b for p, b in prog.bodies.items() if p.startswith("features::") or "features::RustTarget" in p or "features::RustEdition" in p]
+    targets = [b for b in targets if b.kind in ("Fn", "AssocFn") and "::test" not in b.path]
+    rep.need(targets, "functions of bindgen::features")
+    n = 0
+    for b in targets:
+        it = intervals.Interp(b, 64)
+        try:
+            fs = it.run()
+        except RecursionError:
+            continue
+        n += it.checked
+        for f in fs:
+            key = re.sub(r"#\d+", "", f.key)
+            rep.bad(key, f.detail, b.loc(f.node))
+        if not fs and it.checked:
+            rep.ok("arith-ok:%s" % b.path.split("::")[-1])
+    rep.check(True, "functions-analysed:%d" % len(targets), "%d arithmetic sites checked" % n)
